@@ -40,7 +40,7 @@ class MeshBuild:
         self.versions = []          # (input name, value assigned to xf)
         self.nlin = 0
         self.it.on_setattr = self.on_setattr
-        self.it.np_hooks = {"linspace": self.linspace, "append": self.append, "builtin:int": self.int_, "builtin:round": self.round_, "arange": self.arange}
+        self.it.np_hooks = {"linspace": self.linspace, "append": self.append, "concatenate": self.concatenate, "hstack": self.concatenate, "builtin:int": self.int_, "builtin:round": self.round_, "arange": self.arange}
         self.ncell_atom = A.sym("ncell", positive=True)
         self.it.size_atom = self.ncell_atom
         self.params = {}
@@ -127,6 +127,12 @@ class MeshBuild:
         if isinstance(a, FaceSeq) and isinstance(b, FaceSeq):
             return FaceSeq(a.count + b.count, a.first, b.last, None, parts=[a, b])
         raise AnalysisError("np.append of unsupported operands")
+
+    def concatenate(self, args, kwargs):
+        seqs = args[0] if args else None
+        if isinstance(seqs, (list, tuple)) and len(seqs) == 2 and not kwargs:
+            return self.append(list(seqs), {})       # np.concatenate((a, b)) of two 1-D sequences == np.append(a, b)
+        raise AnalysisError("np.concatenate of unsupported operands")
 
     def round_(self, args, kwargs):
         return Round(args[0])
